@@ -5,6 +5,11 @@ fn main() {
         eprintln!("usage: vreplay <entry> <hexarg>...");
         std::process::exit(2);
     }
+    #[cfg(all(cryptocorrosion_verif, feature = "std", not(feature = "no_simd")))]
+    if let Ok(m) = std::env::var("VERIF_CPU") {
+        // simulated CPU feature set for the run-time dispatchers (hook H1)
+        ppv_lite86::x86_64::verif_set_cpu_features(m.parse().unwrap());
+    }
     match vharness::dispatch(&a[0], &a[1..]) {
         Some(out) => {
             for l in out {
